@@ -205,23 +205,61 @@ type c14World struct {
 	hookObs      *c14Obs
 }
 
-var c14TmpRoot string
+var c14TmpRoot string // scratch of this process (TMPDIR: gocheck's c.MkDir, hence the fixture's root directories)
+var c14TmpBase string // scratch of the whole run, removed by the parent process
 
+// c14InitTmp chooses where the fixtures' root directories live. A fixture costs ~17 ms on the disk under
+// $VERIF_WORK and ~5 ms on a tmpfs (it is mostly mkdir/unlink/fsync), so /dev/shm is used when it is there;
+// otherwise $VERIF_WORK/tmp. The parent process picks the place, hands it to the workers and removes it at the end;
+// leftovers of runs that died are removed at the next start.
 func c14InitTmp() {
 	debug.SetGCPercent(400)
+	c14TmpBase = os.Getenv("VERIF_C14_TMPBASE")
+	if c14TmpBase == "" {
+		for _, root := range []string{"/dev/shm", filepath.Join(eng.WorkDir(), "tmp")} {
+			if fi, err := os.Stat(root); root == "/dev/shm" && (err != nil || !fi.IsDir()) {
+				continue
+			}
+			old, _ := filepath.Glob(filepath.Join(root, "verif-C14-*"))
+			for _, d := range old {
+				var pid int
+				fmt.Sscanf(filepath.Base(d), "verif-C14-%d", &pid)
+				if _, err := os.Stat(fmt.Sprintf("/proc/%d", pid)); err != nil {
+					os.RemoveAll(d)
+				}
+			}
+			base := filepath.Join(root, fmt.Sprintf("verif-C14-%d", os.Getpid()))
+			os.RemoveAll(base)
+			if err := os.MkdirAll(base, 0755); err == nil {
+				c14TmpBase = base
+				break
+			}
+		}
+		if c14TmpBase == "" {
+			eng.HarnessError("no place for scratch directories")
+		}
+		os.Setenv("VERIF_C14_TMPBASE", c14TmpBase)
+		os.Setenv("VERIF_C14_TMPOWNER", fmt.Sprint(os.Getpid()))
+	}
 	sh := strings.ReplaceAll(os.Getenv("VERIF_SHARD"), "/", "of")
-	c14TmpRoot = filepath.Join(eng.WorkDir(), "tmp", fmt.Sprintf("C14-%s-%d", sh, os.Getpid()))
-	os.RemoveAll(c14TmpRoot)
+	c14TmpRoot = filepath.Join(c14TmpBase, fmt.Sprintf("w%s-%d", sh, os.Getpid()))
 	if err := os.MkdirAll(c14TmpRoot, 0755); err != nil {
 		eng.HarnessError("cannot create %s: %v", c14TmpRoot, err)
 	}
 	os.Setenv("TMPDIR", c14TmpRoot)
 }
 
-func c14Finish(r *eng.Run, rule string) {
+func c14CleanTmp() {
 	if c14TmpRoot != "" {
 		os.RemoveAll(c14TmpRoot)
 	}
+	if c14TmpBase != "" && os.Getenv("VERIF_C14_TMPOWNER") == fmt.Sprint(os.Getpid()) {
+		os.RemoveAll(c14TmpBase)
+	}
+}
+
+func c14Finish(r *eng.Run, rule string) {
+	c14CleanTmp()
 	r.Finish(rule)
 }
 
@@ -1459,6 +1497,7 @@ func (s *verifC14Suite) TestVerifC14(c *C) {
 	if r.Sharded(16) {
 		if n := r.Count("replay_divergences"); n > 0 {
 			os.RemoveAll(mmDir)
+			c14CleanTmp()
 			eng.HarnessError("%d replays of a path prefix did not reproduce the recorded (or predicted) state", n)
 		}
 		if n := r.Count("model_mismatches"); n > 0 {
@@ -1468,6 +1507,7 @@ func (s *verifC14Suite) TestVerifC14(c *C) {
 				fmt.Print(string(b))
 			}
 			os.RemoveAll(mmDir)
+			c14CleanTmp()
 			eng.HarnessError("%d requests disagreed with the reference model in a way that is no violation of the statement (spurious refusal, menu entry invalid on the idle system): the model needs calibration", n)
 		}
 		os.RemoveAll(mmDir)
